@@ -351,4 +351,5 @@ func TestReplay(t *testing.T) {
 	for i := range c.Types {
 		roundTrip(t, "Replay", c, i)
 	}
+	parsedOwn(t, "Replay", c)
 }
